@@ -383,8 +383,8 @@ def x1(model: Model, rep: Report):
     g = E.resolve("indexing_kernels")
     v = Evaluator(model, inline_methods=False).value_of(g, self_cls=E)
     gs = sym(g.self_name)
-    want = t_add(("attr", gs, "_repetition_kernels"), ("list", (("attr", gs, "_calibration_kernel"),)))
-    ok = v == want or (v[0] == "list" and False)
+    want = ("concat", (("attr", gs, "_repetition_kernels"), ("list", (("attr", gs, "_calibration_kernel"),))))
+    ok = v == want
     rep.check(ok, "C12.X1", "RepetitionExperimentKernel.indexing_kernels", g.loc, found=show(v), required="self._repetition_kernels + [self._calibration_kernel]", what="kernel order changed", detail="order")
     est = E.resolve("estimate_experiment_repetitions")
     _chain_builder(model, rep, est, E, sym("rounds"), sym("heralded_initialization"), "RepetitionExperimentKernel.estimate_experiment_repetitions", False)
